@@ -13,7 +13,7 @@ def run(chk):
     cfg = rc.set_consts("MC_C07", MaxLen=4 if quick else 5)
     res = vlib.run_tlc("MC_C07", cfg_text=cfg, timeout=1500, heap="12g")
     chk.add_tlc(res, "MC_C07 MaxLen=%d" % (4 if quick else 5))
-    rc.replay(chk, res.cases, layouts=("line", "inline", "mltag", "twin", "combo"), cli_sample=150 if quick else 1000)
+    rc.replay(chk, res.cases, layouts=("line", "inline", "inline2", "mltag", "twin", "combo"), cli_sample=150 if quick else 1000)
     # the regex whose group may be empty (small alphabet)
     res2 = vlib.run_tlc("MC_C07", cfg_text=rc.set_consts("MC_C07", MaxLen=4 if quick else 5, Star="TRUE"), timeout=1500, heap="8g")
     chk.add_tlc(res2, "MC_C07 Star (keys that may be empty)")
